@@ -477,9 +477,11 @@ def main():
     cov["trusted_base"] = spec.get("trusted_base", [])
     if tier == "thorough" and spec.get("modules") and not proof_broken:
         # independent re-check of the compiled property modules
-        lc = subprocess.run(["lake", "env", "leanchecker"] + spec["modules"], cwd=LEAN, stdout=subprocess.PIPE,
+        tie_mods = [] if pid in ("C19", "C20") else ["Wormhole.Tie.All", "Wormhole.Tie.WsTop", "Wormhole.Tie.Summ"]
+        tie_mods = [m for m in tie_mods if os.path.exists(os.path.join(LEAN, ".lake", "build", "lib", "lean", m.replace(".", "/") + ".olean"))]
+        lc = subprocess.run(["lake", "env", "leanchecker"] + spec["modules"] + tie_mods, cwd=LEAN, stdout=subprocess.PIPE,
                             stderr=subprocess.STDOUT, timeout=3000)
-        cov["leanchecker"] = {"modules": spec["modules"], "exit": lc.returncode, "tail": lc.stdout.decode()[-300:]}
+        cov["leanchecker"] = {"modules": spec["modules"] + tie_mods, "exit": lc.returncode, "tail": lc.stdout.decode()[-300:]}
         if lc.returncode != 0:
             proof_broken = {"broken": "leanchecker rejects the compiled modules of %s" % pid, "log": lc.stdout.decode()[-1500:]}
 
